@@ -9,7 +9,7 @@ W=/tmp/seedtry-repo-$$
 git -C /repo worktree add -q --detach "$W" || exit 2
 trap 'git -C /repo worktree remove --force "$W" >/dev/null 2>&1' EXIT
 cd "$W"
-place() { sed "s#/tmp/s3/[A-Za-z0-9]*-out#$SEED#g; s#__SEED__#$SEED#g" "$SEED/place.sh" | bash; }
+place() { sed "s#/tmp/s[0-9]/[A-Za-z0-9]*-out#$SEED#g; s#__SEED__#$SEED#g" "$SEED/place.sh" | bash; }
 place
 echo "== demo without change"; bash "$SEED/demo.sh" >/tmp/seedtry-$$.log 2>&1; echo "rc=$? (want 0)"
 git checkout -q go.mod go.sum 2>/dev/null
